@@ -53,6 +53,14 @@ const SITES: [Site; 13] = [
     Site { name: "sm9.exch_step_1b", sm9: true },
 ];
 
+/// a / b as f64 for 256-bit values (top 64 bits of each)
+fn ratio(a: &BigUint, b: &BigUint) -> f64 {
+    let sh = b.bits().saturating_sub(60);
+    let (x, y) = ((a >> sh).to_u64_digits(), (b >> sh).to_u64_digits());
+    let f = |v: &Vec<u64>| v.first().copied().unwrap_or(0) as f64;
+    f(&x) / f(&y)
+}
+
 fn order(sm9: bool) -> &'static BigUint {
     if sm9 {
         &r9::params().n
@@ -347,6 +355,29 @@ pub fn run(ctx: &mut Ctx) {
                     break;
                 }
             }
+        }
+        // per-process statistic on the top 16 bits of this run's scalars (8 sigma around the exact expectation under the
+        // uniform distribution on [1, order-1]): a process whose generator got stuck in a sub-range (for instance because of
+        // what the FIRST call in the process looked like, see props/warmup.rs) is invisible in the statistics merged
+        // over all processes
+        let ord = order(site.sm9);
+        let nrun = run.len() as f64;
+        if nrun >= 200.0 {
+            for b in 240..256u64 {
+                // integers in [0, ord) with bit b set
+                let full = (ord >> (b + 1)) << b;
+                let rem = ord % (BigUint::one() << (b + 1));
+                let part = if rem > (BigUint::one() << b) { rem - (BigUint::one() << b) } else { BigUint::zero() };
+                let ones = full + part;
+                let pbit = ratio(&ones, ord);
+                let cnt = run.iter().filter(|a| a.bit(b)).count() as f64;
+                let sigma = (nrun * pbit * (1.0 - pbit)).sqrt();
+                if sigma > 0.0 && (cnt - nrun * pbit).abs() > 8.0 * sigma + 1.0 {
+                    ctx.violation(&format!("{}:bit-frequency-outside-8-sigma-within-one-process", site.name), json!({"site": site.name, "bit": b, "ones": cnt, "of": nrun, "expected": nrun * pbit, "first_calls_in_process": ctx.shard % 4}));
+                    break;
+                }
+            }
+            ctx.class("per_process_top_bits_checked");
         }
     }
     if SITES.len() <= ctx.shard {
